@@ -187,3 +187,103 @@ def replay(pid, wd, rep, payload):
         rep.reject("sio crew leaves the system model (%s) at step %s" % (",".join(sorted(b["system"])), b.get("at")), [],
                    {"property": pid, "kind": "system", "labels": sorted(b["system"]), "at": b.get("at"), "acts": payload["acts"]})
     return t
+
+
+# ---------------------------------------------------------------- the mcrew host (runs as part of C16)
+
+MCREW_DRIVER = ["harness/mcrew/driver_test.go", "harness/mcrew/timers_driver_test.go", "harness/mcrew/system_driver_test.go"]
+
+
+def mcrew_stage(pid, tier, seed, wd, rep, binary, acts=None):
+    """McrewSystem.tla: model-checked, its behaviours replayed on the real Service (Process calls gated before the crew lock,
+    timer goroutines gated before their select), random runs recorded, Trace_McrewSystem.tla validates every step."""
+    import concurrent.futures as cf
+    import random
+    import subprocess
+    drv = vlib.build_driver("sysdrv", wd)
+    d = os.path.join(wd, "mcrewsys")
+    os.makedirs(d, exist_ok=True)
+    vlib.run([drv, "mcrew-config", d])
+    cfgfile = os.path.join(d, "mcrewconfig.ndjson")
+    gen = dist = 0
+    main_states = 0
+    behs = []
+
+    def mc(cfg, workers=8, timeout=3000):
+        md = vlib.fresh_dir(pid, "mcsys_" + cfg[:-4])
+        vlib.run(["cp", cfgfile, md])
+        return vlib.tlc(md, "MC_McrewSystem.tla", cfg, workers=workers, timeout=timeout, heap="6g")
+
+    if acts is None:
+        r = mc("MC_McrewSystem_export.cfg" if tier == "quick" else "MC_McrewSystem_export5.cfg")
+        if not r["ok"]:
+            raise vlib.CannotRun("McrewSystem.tla: the system invariants do not hold on the model:\n" + r["out"][-3000:])
+        gen += r["generated"]
+        dist += r["distinct"]
+        main_states = r["distinct"]
+        seen = set()
+        for line in r["out"].splitlines():
+            m = re.match(r'^"?BEH (<<.*>>)"?$', line.strip())
+            if m:
+                seen.add(m.group(1).replace("<<", "[").replace(">>", "]").replace('\\"', '"'))
+        # behaviours that take a message outside the table (number 0) cannot be replayed by name
+        behs = sorted(b for b in seen if b != "[]" and '["t", 0]' not in b)
+        if len(behs) < 100:
+            raise vlib.CannotRun("McrewSystem.tla export produced only %d behaviours" % len(behs))
+        cap = 4000 if tier == "quick" else 100000
+        if len(behs) > cap:
+            behs = sorted(random.Random(seed).sample(behs, cap))
+        r = mc("MC_McrewSystem_negctl.cfg")
+        gen += r["generated"]
+        dist += r["distinct"]
+        if r["ok"] or "Invariant EmissionsPersisted is violated" not in r["out"]:
+            raise vlib.CannotRun("McrewSystem.tla: the pre-repair shape (EmitOnFailedWrite) should be refuted:\n" + r["out"][-1500:])
+    else:
+        behs = [json.dumps(acts)]
+
+    def drive(i, mode, env):
+        o = os.path.join(d, "raw_%s_%02d.ndjson" % (mode, i))
+        e = dict(os.environ, VERIF_SYS_MODE=mode, VERIF_SYS_DIR=d, VERIF_OUT_FILE=o)
+        e.update({k: str(v) for k, v in env.items()})
+        p = subprocess.run([binary, "-test.run", "TestVerifSystem", "-test.timeout", "3000s"], env=e, cwd=d,
+                           stdout=subprocess.PIPE, stderr=subprocess.STDOUT, text=True)
+        if p.returncode != 0:
+            raise vlib.CannotRun("mcrew system driver failed (%s):\n%s" % (mode, p.stdout[-3000:]))
+        return o
+
+    jobs = []
+    nsh = 8 if len(behs) > 8 else 1
+    for i in range(nsh):
+        part = behs[i::nsh]
+        bf = os.path.join(d, "beh_%02d.ndjson" % i)
+        with open(bf, "w") as f:
+            for b in part:
+                f.write('{"acts":%s}\n' % b)
+        jobs.append((i, "replay", {"VERIF_IN": bf}))
+    if acts is None:
+        n = 1200 if tier == "quick" else 24000
+        for i in range(8):
+            jobs.append((i, "random", {"VERIF_N": n // 8, "VERIF_SEED": seed * 100 + i, "VERIF_MAXLEN": 12 if tier == "quick" else 16}))
+    with cf.ThreadPoolExecutor(max_workers=8) as ex:
+        raws = list(ex.map(lambda j: drive(*j), jobs))
+    raw = os.path.join(d, "raw_all.ndjson")
+    k = 0
+    with open(raw, "w") as f:
+        for o in raws:
+            for line in open(o):
+                k += 1
+                c = json.loads(line)
+                c["id"] = k
+                f.write(json.dumps(c) + "\n")
+    cases = os.path.join(d, "system_cases.ndjson")
+    vlib.run([drv, "mcrew-encode", raw, cases], timeout=3000)
+    jd = vlib.fresh_dir(pid, "judge_mcrew_system")
+    bad, stats, t = vlib.judge_cases(jd, "Trace_McrewSystem.tla", "Trace_McrewSystem.cfg", cases, extra_files=[cfgfile])
+    for b in bad:
+        c = b["case"]
+        a2 = json.loads(c["raw"])["acts"]
+        rep.reject("mcrew service leaves the system model (%s) at step %s of %s" % (",".join(sorted(b["system"])), b.get("at"), json.dumps(a2)),
+                   b.get("sigs", []), {"property": pid, "kind": "mcrew-system", "labels": sorted(b["system"]), "at": b.get("at"), "acts": a2})
+    log("  McrewSystem.tla: %d states (MemEqualsStore, EmissionsPersisted hold; pre-repair shape refuted); %d model behaviours + %d random runs replayed on the real service, %d steps (%s takes, %s firings), %d rejected"
+        % (main_states, len(behs), t["lines"] - len(behs), stats.get("steps", 0), stats.get("takes"), stats.get("fires"), len(bad)))
+    return {"generated": gen + t["generated"], "distinct": dist + t["distinct"], "lines": t["lines"], "stats": {"mcrewsystem." + k2: v for k2, v in stats.items()}}
